@@ -107,13 +107,14 @@ def gen_side(rng, vmf, features: Dict[str, int], mat: Optional[str] = None, disp
         disp_power=power,  # type: ignore
     )
     if rng.random() < 0.15:
-        side.strata_points = [vec(rng) for _ in range(rng.randint(3, 6))]
+        side.strata_points = [vec(rng) for _ in range(rng.choice((0, 1, 3, 4, 6, 12)))]   # none, one, and more than ten (two-digit keys)
         features['strata_points'] = features.get('strata_points', 0) + 1
     if power:
         features['displacement'] = features.get('displacement', 0) + 1
         side.disp_pos = vec(rng)
         side.disp_elevation = rng.choice((0.0, 1.0, rng.uniform(-64, 64)))
-        side.disp_flags = rng.choice(list(DispFlag.__members__.values()))
+        # named members and every other combination of the four bits (collision subsets with and without SUBDIV)
+        side.disp_flags = rng.choice(list(DispFlag.__members__.values())) if rng.random() < 0.5 else DispFlag(rng.randrange(16))
         if rng.random() < 0.6:
             side.disp_allowed_vert = array('i', [rng.choice((-1, 0, 1, 2 ** 31 - 1, -2 ** 31, rng.randrange(-99999, 99999))) for _ in range(10)])
         size = side.disp_size
@@ -261,7 +262,7 @@ def gen_map(rng, size: str = 'normal', strata: bool = True) -> Tuple[Any, Dict[s
         views: List[Any] = []
         for i in range(4):
             if rng.random() < 0.3:
-                views.append(Strata3DViewport(vec(rng), Angle(coord(rng), coord(rng), 0.0)))
+                views.append(Strata3DViewport(vec(rng), Angle(coord(rng), coord(rng), rng.choice((0.0, 0.0, 45.0, coord(rng))))))
             else:
                 views.append(Strata2DViewport(rng.choice(('x', 'y', 'z')), rng.choice((0.0, 128.0, coord(rng))),
                                               rng.choice((0.0, -64.0, coord(rng))), rng.choice((1.0, 0.25, 4.0, rng.uniform(0.01, 16)))))
@@ -279,13 +280,17 @@ def gen_map(rng, size: str = 'normal', strata: bool = True) -> Tuple[Any, Dict[s
     if rng.random() < 0.25:
         for _ in range(rng.randint(1, 2)):
             vmf.spawn.add_out(gen_output(rng, None))
+    if rng.random() < 0.15:
+        vmf.spawn['targetname'] = hostile(rng, 8, p=0.3) or 'world'
+    if rng.random() < 0.1:
+        vmf.spawn.fixup['worldvar'] = hostile(rng, 8)
     n_brush = {'small': rng.randint(0, 2), 'normal': rng.randint(0, 4), 'big': rng.randint(2, 10)}[size]
     for _ in range(n_brush):
         s = gen_solid(rng, vmf, features)
         if group_ids and rng.random() < 0.3:
             s.group_id = rng.choice(group_ids)
         if vis_ids and rng.random() < 0.3:
-            s.visgroup_ids = set(rng.sample(vis_ids, 1))
+            s.visgroup_ids = set(rng.sample(vis_ids, rng.randint(1, min(3, len(vis_ids)))))
         vmf.add_brush(s)
         features['brush'] = features.get('brush', 0) + 1
     names = [hostile(rng, 8, p=0.2) or 'n' for _ in range(3)]
